@@ -51,7 +51,7 @@ EIGEN = {"ogden", "storakers", "lopez_pamies", "extended_tube", "miehe_goektepe_
 ANISO = {"saint_venant_kirchhoff_orthotropic"}
 MICRO = {"miehe_goektepe_lulei"}
 # models that regularise the undeformed state (documented small shifts): |P(I)| bounded, not zero
-REGULARISED = {"van_der_waals": 1e-2, "extended_tube": 1e-2, "storakers": 1e-2, "ogden": 1e-5, "lopez_pamies": 1e-5, "miehe_goektepe_lulei": 1e-3}
+REGULARISED = {"van_der_waals": 1e-2, "extended_tube": 1e-2, "storakers": 1e-2, "ogden": 1e-5, "lopez_pamies": 1e-5, "miehe_goektepe_lulei": 1e-3, "saint_venant_kirchhoff": 1e-6}
 MORPH_P = [0.039, 0.371, 0.174, 2.41, 0.0094, 6.84, 5.65, 0.244]
 
 
@@ -97,7 +97,7 @@ def catalogue(tier="quick", backends=("hand", "tt", "jax")):
             fun = getattr(C, name)
             for k, kw in enumerate(plist if tier == "thorough" else plist[:2]):
                 mod = max([abs(v) for vv in kw.values() for v in np.atleast_1d(vv) if np.isscalar(v)] + [1.0])
-                add(f"tt.{name}#{k}", lambda fun=fun, kw=kw: fem.Hyperelastic(fun, **kw), "tt", iso=name not in ANISO, eigen=name in EIGEN,
+                add(f"tt.{name}#{k}", lambda fun=fun, kw=kw: fem.Hyperelastic(fun, **kw), "tt", iso=name not in ANISO, eigen=(name in EIGEN or (name == "saint_venant_kirchhoff" and kw.get("k", 2) == 0)),
                     energy=tt_energy(fun, **kw), stressfree=REGULARISED.get(name, 0.0) if not (name == "van_der_waals" and kw.get("beta") == 0.0) else 1e-2,
                     scale=1.0, micro=name in MICRO, cost=3)
         add("tt.ogden_roxburgh(neo_hooke)", lambda: fem.Hyperelastic(C.ogden_roxburgh, material=C.neo_hooke, r=3.0, m=1.0, beta=0.1, mu=1.0, nstatevars=1), "tt", nstate=1, hyper=False,
@@ -109,7 +109,7 @@ def catalogue(tier="quick", backends=("hand", "tt", "jax")):
         add("tt.MaterialAD(total_lagrange svk)", lambda: _ad_total(), "tt", hyper=True, cost=3)
         add("tt.MaterialAD(updated_lagrange nh)", lambda: _ad_updated(), "tt", hyper=True, cost=3)
         add("tt.MaterialAD(morph)", lambda: C.tensortrax.Material(C.tensortrax.models.lagrange.morph, p=MORPH_P, nstatevars=13), "tt", nstate=13, hyper=False,
-            states=[("virgin", lambda n: _sv(13, n)), ("after-call", None)], cost=5, lattice="generic")
+            states=[("virgin", lambda n: _sv(13, n)), ("after-call", None)], cost=5, lattice="generic", stressfree=1e-6)
 
     if "jax" in backends:
         import jax
@@ -124,7 +124,7 @@ def catalogue(tier="quick", backends=("hand", "tt", "jax")):
                 add(f"jax.{name}#{k}", lambda fun=fun, kw=kw: CJ.Hyperelastic(fun, **kw), "jax", iso=True, eigen=name in EIGEN,
                     stressfree=REGULARISED.get(name, 0.0), micro=name in MICRO, cost=8)
         add("jax.Material(morph)", lambda: CJ.Material(CJ.models.lagrange.morph, p=MORPH_P, nstatevars=13), "jax", nstate=13, hyper=False,
-            states=[("virgin", lambda n: _sv(13, n)), ("after-call", None)], cost=10, lattice="generic")
+            states=[("virgin", lambda n: _sv(13, n)), ("after-call", None)], cost=10, lattice="generic", stressfree=1e-4)
     return out
 
 
